@@ -203,6 +203,23 @@ def run(ctx, prop):
             if len(samples) < 3 and depth >= 2:
                 samples.append({"main": idl.render_file(next(f for f in case["files"] if f["path"] == case["main"]))[:1500],
                                 "facts": fi[:12]})
+    # a name declared as an error (or constant) anywhere up the chain cannot be declared again
+    # further down: it would get a second value in the derived interface (C08 only)
+    if mode == "errs":
+        for dist in (1, 2, 3):
+            for kind in ("error", "const"):
+                lv = [{"k": "interface", "name": f"IR{i}", "base": (f"IR{i - 1}" if i else None),
+                       "members": [{"k": "error", "name": f"E_{i}_A"}, {"k": "method", "name": f"m{i}", "optional": False, "doc": None, "params": []}]}
+                      for i in range(dist + 1)]
+                lv[-1]["members"].append({"k": "error", "name": "E_0_A"} if kind == "error" else {"k": "const", "type": "uint32", "name": "E_0_A", "value": "3"})
+                case = {"id": f"redeclared-{kind}-{dist}", "files": [{"path": "main.idl", "nodes": lv}], "main": "main.idl", "incdirs": []}
+                with C.Scratch() as tmp:
+                    root = os.path.join(tmp, "src")
+                    idl.render_case(case, root)
+                    rc, err = E.run_idlc(ctx, root, "main.idl", [], "c", os.path.join(tmp, "o.h"))
+                    ctx.bump("evaluations")
+                    if rc == 0:
+                        oracle_fail.append({"case": {"id": case["id"]}, "failures": [{"where": "cli", "error": f"an error name of an ancestor {dist} level(s) up was declared again and accepted: it has two values in the derived interface"}]})
     # the upper bound through the real command-line binary (C07 only)
     if mode == "ops":
         for n, want in ((16384, 0), (16385, None)):
